@@ -208,6 +208,10 @@ var dests = []dest{
 	{"/url", "/url"}, {"/uri", "/uri"}, {"http://example.com/a?b=c&d=e", "http://example.com/a?b=c&amp;d=e"}, {"#frag", "#frag"},
 	{"/u(1)", "/u(1)"}, {"</my url>", "/my%20url"}, {"<b)c>", "b)c"}, {"/a\\*b", "/a*b"}, {"/f&ouml;&ouml;", "/f%C3%B6%C3%B6"}, {"foo\\)bar", "foo)bar"},
 	{"<>", ""}, {"/url%20x", "/url%20x"}, {"/ä", "/%C3%A4"}, {"a\\b", "a%5Cb"}, {"/q&#35;r", "/q#r"}, {"/q&#035;r", "/q#r"},
+	// numeric references at the limits of their digit counts: six hexadecimal digits (the largest code point; leading zeros),
+	// seven decimal digits, the first and the last two-, three- and four-byte characters
+	{"/u&#x10FFFF;", "/u%F4%8F%BF%BF"}, {"/p&#x00002A;q", "/p*q"}, {"/p&#0000042;q", "/p*q"}, {"/d&#1114111;", "/d%F4%8F%BF%BF"}, {"/e&#x80;&#x7FF;", "/e%C2%80%DF%BF"},
+	{"/f&#x800;&#xFFFD;", "/f%E0%A0%80%EF%BF%BD"}, {"/g&#x10000;", "/g%F0%90%80%80"}, {"/h&#X00E4;", "/h%C3%A4"},
 }
 
 type title struct{ md, attr string }
